@@ -176,10 +176,10 @@ class Report:
         )
         for ln in lines:
             print(ln)
-        if self.errors:
-            return 2
         if unlisted:
             return 1
+        if self.errors:
+            return 2
         return 0
 
 
